@@ -9,13 +9,13 @@ Requests
                                            thread run to completion in thread order (also a schedule)
 Syntax
   tree    ::= (<kind> (<tree> …) <raiseAt> <catches>)      raiseAt ::= none | <nat>     catches ::= True | False
-  kind    ::= plain | dnc | unspec | (ctx <st> <src>) | (fs <ur>) | (tg <rec> <lambda>) | (conv <ur> <rec> <carg>)
-            | (iconv <cref> <cbd> <ur>)
+  kind    ::= plain | dnc | unspec | (ctx <st> <src>) | (fs <ur> <feat>) | (tg <rec> <lambda> <feat>)
+            | (conv <ur> <rec> <feat> <carg>) | (iconv <cref> <cbd> <ur>)       feat: options name an unsupported feature
   carg    ::= null | <cref>            cref ::= current | (obj <id> <st>)
   st      ::= U | E | D                id ::= d | (f <nat>) | (s <nat>)
   obs     ::= ((<nat> …) <point> <bool> <id>|none <st>|none)   path printed outermost first; bool: observer is converted code
   point   ::= start | in | (pre <nat>) | (post <nat>) | caught | out | fin
-  outcome ::= ok | (boom (<nat> …)) | assertion | index
+  outcome ::= ok | (boom (<nat> …)) | assertion | index | rejected
 -/
 namespace Malt.Drv.C16
 open Malt Malt.Ctx
@@ -42,10 +42,10 @@ def kind? : Sexp → Option Kind
   | .atom "dnc" => some .doNotConvert
   | .atom "unspec" => some .unspecified
   | .list [.atom "ctx", st, src] => do pure (.withCtx (← status? st) (← src.bool?))
-  | .list [.atom "fs", b] => b.bool?.map .functionScope
-  | .list [.atom "tg", r, l] => do pure (.toGraph (← r.bool?) (← l.bool?))
-  | .list [.atom "conv", b, r, .atom "null"] => do pure (.convert (← b.bool?) (← r.bool?) none)
-  | .list [.atom "conv", b, r, c] => do pure (.convert (← b.bool?) (← r.bool?) (some (← cref? c)))
+  | .list [.atom "fs", b, f] => do pure (.functionScope (← b.bool?) (← f.bool?))
+  | .list [.atom "tg", r, l, f] => do pure (.toGraph (← r.bool?) (← l.bool?) (← f.bool?))
+  | .list [.atom "conv", b, r, f, .atom "null"] => do pure (.convert (← b.bool?) (← r.bool?) (← f.bool?) none)
+  | .list [.atom "conv", b, r, f, c] => do pure (.convert (← b.bool?) (← r.bool?) (← f.bool?) (some (← cref? c)))
   | .list [.atom "iconv", c, cbd, ur] => do pure (.internalConvert (← cref? c) (← cbd.bool?) (← ur.bool?))
   | _ => none
 
@@ -108,6 +108,7 @@ def outSexp : Option Exn → Sexp
   | some (.boom p) => .list [.atom "boom", pathSexp p]
   | some .assertion => .atom "assertion"
   | some .index => .atom "index"
+  | some .rejected => .atom "rejected"
 
 /-- Run the machine until it is done (the bound only guards against a modelling error). -/
 def runMachine (c : Cfg) (fuel : Nat) : Cfg × Nat := Id.run do
